@@ -240,6 +240,57 @@ def run(ctx):
             else:
                 r_tog.discharged += 1
 
+    # ---------------- leftmost / rightmost (used by the all-variants and by the search ranges)
+    r_ext = ctx.rule("C13.EXTREME", "TextSelectionSet::leftmost / rightmost return an item with the smallest begin / largest end, for sorted and unsorted sets (all sets up to 3 items over 0..3)")
+    from formula import Evaluator, StructVal
+    import itertools
+    small_iv = intervals(3)
+    for fname, field, agg in (("leftmost", "begin", min), ("rightmost", "end", max)):
+        fn = syn.fn(fname, self_ty="TextSelectionSet")
+        ctx.functions_analysed.add(fn.qual)
+        r_ext.obligations += 1
+        bad = None
+        unknown = None
+        n_ev = 0
+        for k in (0, 1, 2, 3):
+            for combo in itertools.product(small_iv, repeat=k):
+                for sorted_ in (False, True):
+                    data = [model.interval(*c) for c in (sorted(combo) if sorted_ else combo)]
+                    hooks = {
+                        "is_empty": lambda ev, recv, args, node, env: (len(recv["data"]) == 0) if isinstance(recv, StructVal) else NotImplemented,
+                        "iter": lambda ev, recv, args, node, env: recv["data"] if isinstance(recv, StructVal) else (recv if isinstance(recv, list) else NotImplemented),
+                        "get": lambda ev, recv, args, node, env: ((some(recv[args[0]]) if 0 <= args[0] < len(recv) else None) if isinstance(recv, list) else NotImplemented),
+                    }
+                    ev = Evaluator(hooks=hooks)
+                    try:
+                        got = ev.run_body(fn.body, {"self": StructVal("TextSelectionSet", {"data": data, "sorted": sorted_})})
+                    except Panic as p:
+                        bad = bad or "panics (%s) for %s sorted=%s" % (p.kind, list(combo), sorted_)
+                        continue
+                    except Unknown as u:
+                        unknown = str(u)
+                        break
+                    n_ev += 1
+                    if k == 0:
+                        if got is not None and bad is None:
+                            bad = "returns %r for the empty set" % (got,)
+                        continue
+                    want = agg(c[0] if field == "begin" else c[1] for c in combo)
+                    if not (is_some(got) and got[1][field] == want) and bad is None:
+                        bad = "returns %r for the %s set %s: its %s is not the %s (%d)" % (got, "sorted" if sorted_ else "unsorted", sorted(combo) if sorted_ else list(combo), field, "smallest" if agg is min else "largest", want)
+                if unknown:
+                    break
+            if unknown:
+                break
+        r_ext.hit(fname, sample={"function": fn.qual, "sets_evaluated": n_ev})
+        if unknown:
+            r_ext.unknown += 1
+            ctx.report(r_ext, "uninterpretable:" + fname, "%s is outside the evaluator's vocabulary (%s): obligation not discharged" % (fn.qual, unknown), fn.file, fn.line)
+        elif bad:
+            ctx.report(r_ext, fname, "TextSelectionSet::%s %s" % (fname, bad), fn.file, fn.line)
+        else:
+            r_ext.discharged += 1
+
     # ---------------- pattern coverage of the four matches
     for fn in (model.f_test, model.f_test_set, model.f_set_test, model.f_set_test_set):
         for op in model.opvalues((None, 1)):
